@@ -42,6 +42,9 @@ def nproj(p):
                 out.append(("f", e["f"], e.get("n")))
             elif "idx" in e:
                 out.append(("idx",))
+            elif "cidx" in e:
+                # constant index of a slice pattern: `[.., x]` reads (1, from the end), `[x, ..]` (0, from the start)
+                out.append(("cidx", (e["cidx"], bool(e.get("from_end")))))
             else:
                 out.append(("?",))
         else:
@@ -56,6 +59,8 @@ def proj_str(p):
             out.append("as %s" % e[1])
         elif e[0] == "f":
             out.append(".%s" % (e[2] if e[2] is not None else e[1]))
+        elif e[0] == "cidx":
+            out.append("[%s%d]" % ("len-" if e[1][1] else "", e[1][0]))
         else:
             out.append("[%s]" % e[0])
     return " ".join(out)
@@ -732,4 +737,137 @@ def option_edges(fn):
         if some_t is None or len(others) != 1:
             continue
         out.append((sbb, some_t, others[0], optop))
+    return out
+
+
+def presence_tests(fn, feas, is_base, through=()):
+    """Every test (switch_bb, some_target, none_target) of an Option that is Some exactly when a *base* Option is Some.
+    is_base(origin) recognises the base value (e.g. the result of `map.get("page_token")`).  A test qualifies when every
+    value its operand can hold (option_cases: looks through moves, `?`, `Option<Result>::transpose`) is
+      * the base value itself, or
+      * a `Some(..)` built only where an already qualified test has taken its Some edge, or
+      * a `None` built only where an already qualified test has taken its None edge
+    (fixpoint).  So `match m.get(k) { Some(t) => .., None => .. }` and the two-step `let sel = m.get(k).map(decode).transpose()?;
+    match sel { Some(s) => .., None => .. }` (normalised view: the map is a switch on the lookup result that builds
+    Some(decode(t)) / None) expose the same decision: the second test is a test of the presence of the key."""
+    pending = list(option_edges(fn))
+    tests = []
+
+    def qualifies(optop):
+        cases = option_cases(fn, optop, through)
+        if not cases:
+            return False
+        for kind, pay, bb in cases:
+            if kind == "other":
+                if not is_base(pay):
+                    return False
+            elif bb is None:
+                return False
+            elif kind == "some":
+                if not any(feas.edge_dominates(s, st, bb) for s, st, nt in tests):
+                    return False
+            elif not any(feas.edge_dominates(s, nt, bb) for s, st, nt in tests):
+                return False
+        return True
+    progress = True
+    while progress:
+        progress = False
+        for e in list(pending):
+            sbb, st, nt, optop = e
+            if qualifies(optop):
+                tests.append((sbb, st, nt))
+                pending.remove(e)
+                progress = True
+    return tests
+
+
+# ------------------------------------------------------------------------------------------------ slice patterns
+LAST_ELEM = (("cidx", (1, True)),)
+SLICE_LEN = re.compile(r"^(core::slice::<impl \[T\]>::len|std::vec::Vec::<T, A>::len)$")
+
+
+def indexed_reads(fn):
+    """Reads of an element / a sub-slice by a projection (not by a call): [(bb, kind, detail)] with kind 'cidx' (detail =
+    (offset, from_end): a slice pattern), 'idx' (a computed index) or 'subslice', over the reachable non-cleanup blocks."""
+    out = []
+    reach = fn.reachable(0)
+
+    def walk(o, bb):
+        if isinstance(o, dict):
+            if "l" in o and "p" in o and isinstance(o["p"], list):
+                for e in o["p"]:
+                    if isinstance(e, dict) and "cidx" in e:
+                        out.append((bb, "cidx", (e["cidx"], bool(e.get("from_end")))))
+                    elif isinstance(e, dict) and "idx" in e:
+                        out.append((bb, "idx", None))
+                    elif e == "subslice":
+                        out.append((bb, "subslice", None))
+                return
+            for v in o.values():
+                walk(v, bb)
+        elif isinstance(o, list):
+            for v in o:
+                walk(v, bb)
+    for blk in fn.blocks:
+        if blk["cleanup"] or blk["bb"] not in reach:
+            continue
+        walk(blk["st"], blk["bb"])
+        walk(blk["term"], blk["bb"])
+    return out
+
+
+def emptiness_tests(fn, is_subject, through=()):
+    """Bool switches that decide whether a slice / Vec is empty by comparing its length with a constant:
+    [(switch_bb, nonempty_target, empty_target)].  The length is `PtrMetadata(s)` (what a slice pattern `[.., x]` tests),
+    `Len`, or a call of len(); is_subject(origins of s) says whether s is the collection of interest.  `len >= 1`,
+    `len > 0`, `len != 0`, `1 <= len`, `!(len < 1)`, `len == 0` .. are one predicate (engine.normalise_le)."""
+    from .engine import comparison_of, normalise_le
+    out = []
+    reach = fn.reachable(0)
+    for sbb, t in fn.switches():
+        if sbb not in reach:
+            continue
+        c = comparison_of(fn, sbb)
+        if not c:
+            continue
+
+        def length_of_subject(op):
+            for o in trace(fn, op)[0]:
+                src = None
+                if o.kind == "rv" and o.info.get("rv") in ("unop:PtrMetadata", "len") and not o.proj:
+                    rv = o.node["rv"]
+                    src = rv.get("a") if rv["rv"] == "unop" else rv.get("pl")
+                elif o.kind == "call" and not o.proj and SLICE_LEN.search(o.node.get("callee") or "") and o.node["args"]:
+                    src = o.node["args"][0]
+                if src is None or not is_subject(trace(fn, src, through)[0]):
+                    return False
+            return True
+
+        def konst(op):
+            vs = set()
+            for o in trace(fn, op)[0]:
+                v = (o.info.get("val") or {}).get("int") if o.kind == "const" and not o.proj else None
+                if v is None:
+                    return None
+                vs.add(v)
+            return vs.pop() if len(vs) == 1 else None
+        verdicts = set()
+        for rel, x, y, edge in normalise_le(c):
+            other = "false" if edge == "true" else "true"
+            kx, ky = konst(x), konst(y)
+            if kx is not None and ky is None and length_of_subject(y):
+                # K rel len
+                if (rel == "le" and kx == 1) or (rel == "lt" and kx == 0) or (rel == "ne" and kx == 0):
+                    verdicts.add((c[edge], c[other]))
+                elif rel == "eq" and kx == 0:
+                    verdicts.add((c[other], c[edge]))
+            elif ky is not None and kx is None and length_of_subject(x):
+                # len rel K
+                if (rel == "le" and ky == 0) or (rel == "lt" and ky == 1) or (rel == "eq" and ky == 0):
+                    verdicts.add((c[other], c[edge]))
+                elif rel == "ne" and ky == 0:
+                    verdicts.add((c[edge], c[other]))
+        if len(verdicts) == 1:
+            ne, em = verdicts.pop()
+            out.append((sbb, ne, em))
     return out
